@@ -297,3 +297,62 @@ Theorem C11_gen_baseresp_read_any_order_unknowns : forall en fuel p its rest,
   exists ex', g_base_BaseResp_FastRead xskip fuel en false (r_msg p) (r_code p) (r_extra p) (enc_ritems its ++ rest)
               = Ok (r_msg p', r_code p', ex', Z.of_N (len (enc_ritems its)), gnil) /\ mequiv ex' (r_extra p').
 Proof. intros en. exact (g_baseresp_read_any_order_unknowns xskip xskip_ok en C11_SK_exact C11_ENC_wf). Qed.
+
+(* ---------- tools/gotrans phase 3: ApplicationException BLength / FastRead / FastWrite(Nocopy), Base / BaseResp BLength / FastWrite(Nocopy), FastMarshal / FastUnmarshal regenerated from the Go source and proved equal to Model/FastCodec.v, Model/Nocopy.v (Proofs/GenEquivAppEx.v, GenEquivNocopy.v, GenEquivFastCodec.v) ---------- *)
+From GV Require Import Proofs.GenLib3 Proofs.GenEquivAppEx Proofs.GenEquivNocopy Proofs.GenEquivFastCodec Proofs.GenCorollariesAppEx Proofs.GenCorollariesNocopy Proofs.GenCorollariesFastCodec.
+
+Theorem C11_gen_blen_eq_appex :
+  forall (e : appex) (b : bytes), glen_ok b -> len (appex_stream (x_msg e) (x_type e)) <= len b -> let s := appex_stream (x_msg e) (x_type e) in g_thrift_ApplicationException_BLength false (x_type e) (x_msg e) = Ok (x_type e, x_msg e, Z.of_N (len s)) /\ g_thrift_ApplicationException_FastWrite false (x_type e) (x_msg e) b = Ok (x_type e, x_msg e, s ++ drop (len s) b, Z.of_N (len s)) /\ g_thrift_ApplicationException_FastWriteNocopy false (x_type e) (x_msg e) b = Ok (x_type e, x_msg e, s ++ drop (len s) b, Z.of_N (len s)).
+Proof. exact (@g_appex_blen_eq). Qed.
+
+Theorem C11_gen_appex_read_ok :
+  forall (en : bool) (fuel : nat) (b : bytes) (e e' : appex) (off : N), wf b -> glen_ok b -> (S (Datatypes.length b) < fuel)%nat -> appex_read (Some e) b = Ok (Some e', off) -> g_thrift_ApplicationException_FastRead xskip fuel en false (x_type e) (x_msg e) b = Ok (x_type e', x_msg e', Z.of_N off, gnil).
+Proof. exact (fun en => @g_appex_read_ok xskip xskip_ok en). Qed.
+
+Theorem C11_gen_appex_read_err :
+  forall (en : bool) (fuel : nat) (b : bytes) (e : appex) (c : Z), wf b -> glen_ok b -> (S (Datatypes.length b) < fuel)%nat -> appex_read (Some e) b = Err c -> c <> e_fuel -> exists (a1 : Z) (a2 : bytes) (a3 : Z), g_thrift_ApplicationException_FastRead xskip fuel en false (x_type e) (x_msg e) b = Ok (a1, a2, a3, Some c).
+Proof. exact (fun en => @g_appex_read_err xskip xskip_ok en). Qed.
+
+Theorem C11_gen_rt_appex :
+  forall (en : bool) (fuel : nat) (e : appex) (b rest : bytes) (e0 : appex), appex_ok e -> wf (x_msg e) -> wf rest -> glen_ok (b ++ rest) -> (S (Datatypes.length (b ++ rest)) < fuel)%nat -> g_thrift_ApplicationException_BLength false (x_type e) (x_msg e) = Ok (x_type e, x_msg e, Z.of_N (len b)) -> exists bs : bytes, g_thrift_ApplicationException_FastWrite false (x_type e) (x_msg e) b = Ok (x_type e, x_msg e, bs, Z.of_N (len b)) /\ len bs = len b /\ g_thrift_ApplicationException_FastRead xskip fuel en false (x_type e0) (x_msg e0) (bs ++ rest) = Ok (x_type e, x_msg e, Z.of_N (len b), gnil).
+Proof. exact (fun en => @g_appex_rt xskip xskip_ok en). Qed.
+
+Theorem C11_gen_appex_read_any_order_unknowns :
+  forall (en : bool) (fuel : nat) (e : appex) (its : list ritem) (rest : bytes), forallb (ritem_ok appex_schema) its = true -> wf rest -> glen_ok (enc_ritems its ++ rest) -> (S (Datatypes.length (enc_ritems its ++ rest)) < fuel)%nat -> let e' := xrec (apply_items appex_apply (xpair e) its) in g_thrift_ApplicationException_FastRead xskip fuel en false (x_type e) (x_msg e) (enc_ritems its ++ rest) = Ok (x_type e', x_msg e', Z.of_N (len (enc_ritems its)), gnil).
+Proof. exact (fun en => @g_appex_read_any_order_unknowns xskip xskip_ok en C11_SK_exact C11_ENC_wf). Qed.
+
+Theorem C11_gen_blen_eq_base :
+  forall (lg cl ad : bytes) (m : gmap bytes bytes) (ord : list bytes) (b : bytes), let p := gbase lg cl ad m ord in gmap_order_ok m ord -> glen_ok b -> base_blength p <= len b -> g_base_Base_BLength false lg cl ad m ord = Ok (lg, cl, ad, m, Z.of_N (len (base_stream p))) /\ g_base_Base_FastWrite false lg cl ad m b ord = Ok (lg, cl, ad, m, base_stream p ++ drop (len (base_stream p)) b, Z.of_N (len (base_stream p))).
+Proof. exact (@g_C11_blen_eq_base). Qed.
+
+Theorem C11_gen_blen_eq_baseresp :
+  forall (ms : bytes) (cd : Z) (m : gmap bytes bytes) (ord : list bytes) (b : bytes), let p := gresp ms cd m ord in gmap_order_ok m ord -> glen_ok b -> baseresp_blength p <= len b -> g_base_BaseResp_BLength false ms cd m ord = Ok (ms, cd, m, Z.of_N (len (baseresp_stream p))) /\ g_base_BaseResp_FastWrite false ms cd m b ord = Ok (ms, cd, m, baseresp_stream p ++ drop (len (baseresp_stream p)) b, Z.of_N (len (baseresp_stream p))).
+Proof. exact (@g_C11_blen_eq_baseresp). Qed.
+
+Theorem C11_gen_blen_any_order :
+  forall (lg cl ad ms : bytes) (cd : Z) (m : gmap bytes bytes) (ord ord' : list bytes), gmap_order_ok m ord -> gmap_order_ok m ord' -> (Z.of_N (base_blength (gbase lg cl ad m ord)) < 2 ^ 63)%Z -> (Z.of_N (baseresp_blength (gresp ms cd m ord)) < 2 ^ 63)%Z -> g_base_Base_BLength false lg cl ad m ord = g_base_Base_BLength false lg cl ad m ord' /\ g_base_BaseResp_BLength false ms cd m ord = g_base_BaseResp_BLength false ms cd m ord'.
+Proof. exact (@g_C11_blen_any_order). Qed.
+
+Theorem C11_gen_nil_receiver :
+  forall (lg cl ad ms : bytes) (cd : Z) (m : gmap bytes bytes) (ord : list bytes) (b : bytes), 1 <= len b -> g_base_Base_BLength true lg cl ad m ord = Ok (lg, cl, ad, m, 1%Z) /\ g_base_Base_FastWrite true lg cl ad m b ord = Ok (lg, cl, ad, m, [0] ++ drop 1 b, 1%Z) /\ g_base_BaseResp_BLength true ms cd m ord = Ok (ms, cd, m, 1%Z) /\ g_base_BaseResp_FastWrite true ms cd m b ord = Ok (ms, cd, m, [0] ++ drop 1 b, 1%Z).
+Proof. exact (@g_C11_nil_receiver). Qed.
+
+Theorem C11_gen_rt_base :
+  forall (en : bool) (fuel : nat) (lg cl ad : bytes) (m : gmap bytes (list N)) (ord : list bytes) (b : bytes) (rest : list N), let p := {| b_logid := lg; b_caller := cl; b_addr := ad; b_extra := ordered_map beqb [] m ord |} in gmap_order_ok m ord -> base_ok p -> len b = base_blength (Some p) -> wf (base_stream (Some p) ++ rest) -> glen_ok (b ++ rest) -> (S (Datatypes.length (b ++ rest)) < fuel)%nat -> exists (bs : bytes) (ex' : gmap bytes bytes), g_base_Base_FastWrite false lg cl ad m b ord = Ok (lg, cl, ad, m, bs, Z.of_N (len b)) /\ len bs = len b /\ g_base_Base_FastRead xskip fuel en false [] [] [] None (bs ++ rest) = Ok (lg, cl, ad, ex', Z.of_N (len b), gnil) /\ mequiv ex' (ordered_map beqb [] m ord).
+Proof. exact (fun en => @g_C11_rt_base xskip xskip_ok en). Qed.
+
+Theorem C11_gen_rt_baseresp :
+  forall (en : bool) (fuel : nat) (ms : bytes) (cd : Z) (m : gmap bytes (list N)) (ord : list bytes) (b : bytes) (rest : list N), let p := {| r_msg := ms; r_code := cd; r_extra := ordered_map beqb [] m ord |} in gmap_order_ok m ord -> baseresp_ok p -> len b = baseresp_blength (Some p) -> wf (baseresp_stream (Some p) ++ rest) -> glen_ok (b ++ rest) -> (S (Datatypes.length (b ++ rest)) < fuel)%nat -> exists (bs : bytes) (ex' : gmap bytes bytes), g_base_BaseResp_FastWrite false ms cd m b ord = Ok (ms, cd, m, bs, Z.of_N (len b)) /\ len bs = len b /\ g_base_BaseResp_FastRead xskip fuel en false [] 0 None (bs ++ rest) = Ok (ms, cd, ex', Z.of_N (len b), gnil) /\ mequiv ex' (ordered_map beqb [] m ord).
+Proof. exact (fun en => @g_C11_rt_baseresp xskip xskip_ok en). Qed.
+
+Theorem C11_gen_marshal_appex :
+  forall (en : bytes) (e : appex), (glen (x_msg e) + 15 < 2 ^ 62)%Z -> g_thrift_FastMarshal ax_St ax_BL ax_FW (xdirty en) (x_type e, x_msg e) = Ok (x_type e, x_msg e, appex_stream (x_msg e) (x_type e)).
+Proof. exact (fun en => @g_C11_marshal_appex xskip xskip_ok en). Qed.
+
+Theorem C11_gen_marshal_unmarshal_appex :
+  forall (en : bool) (fuel : nat) (dirt : bytes) (e e0 : appex), appex_ok e -> wf (x_msg e) -> (S (Datatypes.length (appex_stream (x_msg e) (x_type e))) < fuel)%nat -> exists bs : bytes, g_thrift_FastMarshal ax_St ax_BL ax_FW (xdirty dirt) (x_type e, x_msg e) = Ok (x_type e, x_msg e, bs) /\ g_thrift_FastUnmarshal ax_St (ax_FR xskip en fuel) bs (x_type e0, x_msg e0) = Ok (x_type e, x_msg e, gnil).
+Proof. exact (fun en => @g_C11_marshal_unmarshal_appex xskip xskip_ok en). Qed.
+
+Theorem C11_gen_marshal_base :
+  forall (lg cl ad : bytes) (m : gmap bytes bytes) (ord : list bytes) (dirt : bytes), let p := gbase lg cl ad m ord in gmap_order_ok m ord -> (Z.of_N (base_blength p) < 2 ^ 62)%Z -> g_thrift_FastMarshal unit (bs_BL lg cl ad m ord) (bs_FW lg cl ad m ord) (xdirty dirt) tt = Ok (tt, base_stream p).
+Proof. exact (@g_C11_marshal_base). Qed.
